@@ -24,7 +24,9 @@
 (***************************************************************************)
 EXTENDS Integers, Sequences, FiniteSets, TLC
 
-CONSTANTS OffsetAs, KeepMicro
+CONSTANTS OffsetAs, KeepMicro,
+          AwareBy        \* how the decoder tells a zone-aware datetime: "name" (pinned: by the zone NAME that was written - a zone
+                         \* without a name, e.g. dateutil's tzoffset(None, 3600), comes back naive: another instant) | "offset" (repaired)
 
 Pad(n, w) == \* decimal digits of n as code points, zero padded to width w (n < 10^w)
   LET RECURSIVE P(_, _)
@@ -53,36 +55,40 @@ EncodeTyped(v) ==
   CASE v.kind = "date" -> [tag |-> "type{date}", txt |-> DateTxt(v), has_ofs |-> FALSE, ofs |-> 0, has_tz |-> FALSE]
     [] v.kind = "time" -> [tag |-> "type{time}", txt |-> TimeTxt(v), has_ofs |-> FALSE, ofs |-> 0, has_tz |-> FALSE]
     [] v.kind = "dt"   -> [tag |-> "type{datetime}", txt |-> DateTxt(v) \o <<TeeCh>> \o TimeTxt(v),
-                           has_ofs |-> v.aware, ofs |-> IF v.aware THEN OffsetField(v.off) ELSE 0, has_tz |-> v.aware]
+                           has_ofs |-> v.aware, ofs |-> IF v.aware THEN OffsetField(v.off) ELSE 0, has_tz |-> v.aware /\ v.named]
     [] v.kind = "dec"  -> [tag |-> "type{decimal}", txt |-> v.txt, has_ofs |-> FALSE, ofs |-> 0, has_tz |-> FALSE]
     [] v.kind = "dur"  -> [tag |-> "type{duration}", txt |-> v.txt, has_ofs |-> FALSE, ofs |-> 0, has_tz |-> FALSE]
     [] OTHER           -> [tag |-> "plain", txt |-> v.txt, has_ofs |-> FALSE, ofs |-> 0, has_tz |-> FALSE]
 \* a user dict is written as it is: one that looks like a typed value gives the very same bytes
 Encode(v) == EncodeTyped(Base(v))
 
-Zero == [kind |-> "null", y |-> 0, m |-> 0, d |-> 0, h |-> 0, mi |-> 0, s |-> 0, us |-> 0, aware |-> FALSE, off |-> 0, txt |-> <<>>]
+Zero == [kind |-> "null", y |-> 0, m |-> 0, d |-> 0, h |-> 0, mi |-> 0, s |-> 0, us |-> 0, aware |-> FALSE, off |-> 0, txt |-> <<>>, named |-> FALSE]
+\* a zone's NAME is not part of the value (two zones of one offset give the same instants): values are compared without it
+Unname(x) == [x EXCEPT !.named = FALSE]
+IsAware(w) == IF AwareBy = "name" THEN w.has_tz ELSE w.has_ofs
 Decode(w, kind) ==
   CASE w.tag = "type{date}" -> [Zero EXCEPT !.kind = "date", !.y = Num(w.txt, 1, 4), !.m = Num(w.txt, 6, 7), !.d = Num(w.txt, 9, 10)]
     [] w.tag = "type{time}" -> [Zero EXCEPT !.kind = "time", !.h = Num(w.txt, 1, 2), !.mi = Num(w.txt, 4, 5), !.s = Num(w.txt, 7, 8), !.us = Frac(w.txt, 9)]
     [] w.tag = "type{datetime}" ->
          [Zero EXCEPT !.kind = "dt", !.y = Num(w.txt, 1, 4), !.m = Num(w.txt, 6, 7), !.d = Num(w.txt, 9, 10),
                       !.h = Num(w.txt, 12, 13), !.mi = Num(w.txt, 15, 16), !.s = Num(w.txt, 18, 19), !.us = Frac(w.txt, 20),
-                      !.aware = w.has_tz, !.off = IF w.has_tz THEN w.ofs ELSE 0]
+                      !.aware = IsAware(w), !.off = IF IsAware(w) THEN w.ofs ELSE 0, !.named = w.has_tz]
     [] w.tag = "type{decimal}" -> [Zero EXCEPT !.kind = "dec", !.txt = w.txt]
     [] w.tag = "type{duration}" -> [Zero EXCEPT !.kind = "dur", !.txt = w.txt]
     [] OTHER -> [Zero EXCEPT !.kind = kind, !.txt = w.txt]
 
-RoundTrip(v) == Decode(Encode(v), v.kind) = v
+RoundTrip(v) == Unname(Decode(Encode(v), v.kind)) = Unname(v)
 \* what the pinned codec returns for a value: sub-second part dropped, offset through the unsigned seconds field
 Deviation(v) == LET a == IF KeepMicro THEN Base(v) ELSE [Base(v) EXCEPT !.us = 0]
                 IN IF v.kind = "dt" /\ v.aware THEN [a EXCEPT !.off = OffsetField(v.off)] ELSE a
 
 \* the boundary catalogue the model checks (MC instance)
 Offsets == {-43200, -18000, -3600, -60, 0, 60, 19800, 50400}
-DT(y, m, d, h, mi, s, us, aw, off) == [Zero EXCEPT !.kind = "dt", !.y = y, !.m = m, !.d = d, !.h = h, !.mi = mi, !.s = s, !.us = us, !.aware = aw, !.off = off]
+DT(y, m, d, h, mi, s, us, aw, off) == [Zero EXCEPT !.kind = "dt", !.y = y, !.m = m, !.d = d, !.h = h, !.mi = mi, !.s = s, !.us = us, !.aware = aw, !.off = off, !.named = aw]
 Catalogue ==
   {DT(y, 1, 2, h, 4, 5, us, TRUE, off) : y \in {1, 1999, 9999}, h \in {0, 23}, us \in {0, 1}, off \in Offsets}
   \cup {DT(y, 12, 31, 23, 59, 59, us, FALSE, 0) : y \in {1, 2024}, us \in {0, 999999}}
+  \cup {[DT(2020, 1, 2, 3, 4, 5, 0, TRUE, off) EXCEPT !.named = FALSE] : off \in Offsets}            \* zones that have no name
   \cup {[Zero EXCEPT !.kind = "date", !.y = y, !.m = 2, !.d = 29] : y \in {4, 2000, 9996}}
   \cup {[Zero EXCEPT !.kind = "time", !.h = h, !.mi = 0, !.s = 59, !.us = us] : h \in {0, 12, 23}, us \in {0, 500000}}
 TagObjects == {[Zero EXCEPT !.kind = "tagobj-date", !.y = 2020, !.m = 1, !.d = 2],
@@ -98,5 +104,5 @@ Spec == Init /\ [][Next]_v
 RoundTripAll == RoundTrip(v)
 RoundTripSeconds == SecondPrecision(v) => RoundTrip(v)
 RoundTripUnlessTagObject == ~IsTagObj(v) => RoundTrip(v)
-TagObjectComesBackTyped == IsTagObj(v) => Decode(Encode(v), v.kind) = Base(v)
+TagObjectComesBackTyped == IsTagObj(v) => Unname(Decode(Encode(v), v.kind)) = Unname(Base(v))
 =============================================================================
